@@ -67,7 +67,8 @@ def script_sets(pid, tier, rnd):
                 ("size", muxgen.size_limit(rnd, 60 if q else 600), [])]
     if pid == "C16":
         return [("cfgs", muxgen.track_lists(rnd, 150 if q else 1500), ["-mv", "-noemit"]),
-                ("gen", muxgen.general(rnd, 60 if q else 600, (40, 120)), ["-mv", "-noemit"])]
+                ("gen", muxgen.general(rnd, 60 if q else 600, (40, 120)), ["-mv", "-noemit"]),
+                ("zero", muxgen.zero_duration_segment(rnd, 8 if q else 40), ["-mv", "-noemit"])]
     if pid == "C19":
         return [("grid", muxgen.c19_grid(rnd, 160 if q else 2400), ["-noemit"])]
     raise vlib.Inconclusive("no script set for " + pid)
